@@ -48,8 +48,27 @@ impl TestVal for Constant {
 impl TestVal for Expression {
     fn make(rng: &mut Rng, v: &BigUint, bits: usize) -> Self {
         let c = |x: BigUint| Expression::Constant(Constant::new_big(x, bits));
-        match rng.below(3) {
-            0 => c(v.clone()),
+        match rng.below(5) {
+            // an extension on top: sext.bits / zext.bits of the low half when the value is exactly that extension of it
+            // (the memory splits stored expressions with its own shift/truncate builders, which may look at the top node)
+            3 | 4 if bits >= 16 => {
+                let h = bits / 2;
+                let one = BigUint::from(1u8);
+                let low = v & ((&one << h) - &one);
+                let zext = low.clone();
+                let sext = if (&low >> (h - 1)) & &one == one { &low | (((&one << (bits - h)) - &one) << h) } else { low.clone() };
+                let lowc = Expression::Constant(Constant::new_big(low, h));
+                if &sext == v && rng.bool() {
+                    Expression::sext(bits, lowc).unwrap()
+                } else if &zext == v {
+                    Expression::zext(bits, lowc).unwrap()
+                } else if &sext == v {
+                    Expression::sext(bits, lowc).unwrap()
+                } else {
+                    c(v.clone())
+                }
+            }
+            0 | 3 | 4 => c(v.clone()),
             1 => {
                 // (v ^ k) ^ k
                 let k = rng.corner_big(bits);
